@@ -14,13 +14,15 @@ def wfFnTy : FnTy → Bool
   | .size => true
   | .index => true
   | .ctrl _ mem => mem.isNone
-  | .num _ shape isWin _ => wfL shape && (!isWin || !shape.isEmpty)
+  | .num _ shape isWin _ => wfXL shape && (!isWin || !shape.isEmpty)
 
 def wfFnArgs : List PFnArg → Bool
   | [] => true
   | a :: as => wfFnTy a.ty && wfFnArgs as
 
-def wfProc (p : PProc) : Bool := wfFnArgs p.args && !p.body.isEmpty && wfS p.body
+/-- the block after the header is not empty: at least one assertion or one statement -/
+def wfProc (p : PProc) : Bool :=
+  wfFnArgs p.args && wfXL p.preds && wfS p.body && (!p.preds.isEmpty || !p.body.isEmpty)
 
 /-- after an argument: `,` or `)` -/
 def ArgStop (ts : List STok) : Prop := ∃ r, ts = .t .comma :: r ∨ ts = .t .rp :: r
@@ -60,18 +62,12 @@ theorem noAt_stop (ts : List STok) (h : ArgStop ts) :
 
 theorem parseES_name (x : String) (ts : List STok) (h : StopOK ts) :
     parseES (.t (.id x) :: ts) = some (.var x [], ts) := by
-  have := parseES_rt (.var x []) (by simp [wf, wfL]) ts h
-  simpa [ppT, norm, normL] using this
+  have := parseES_rt (.var x []) (by simp [wfX, wfXL]) ts h
+  simpa [ppX, normX, normXL] using this
 
 theorem tyName_ne (ty : Ty) : (ty.name == "size") = false ∧ (ty.name == "index") = false ∧
     (ty.name == "bool") = false ∧ (ty.name == "stride") = false := by
   cases ty <;> decide
-
-theorem var_toks (x : String) (shape : List PExpr) :
-    ∃ r, tt (ppT 0 (.var x shape)) = .t (.id x) :: r := by
-  cases shape with
-  | nil => exact ⟨[], by simp [ppT]⟩
-  | cons i is => exact ⟨_, by simp only [ppT, tt_cons]; rfl⟩
 
 theorem parseFnTy_rt (ty : FnTy) (h : wfFnTy ty = true) (ts : List STok) (hs : ArgStop ts) :
     parseFnTy (fnTyT ty ++ ts) = some (normFnTy ty, ts) := by
@@ -108,9 +104,9 @@ theorem parseFnTy_rt (ty : FnTy) (h : wfFnTy ty = true) (ts : List STok) (hs : A
     obtain ⟨n1, n2, n3, n4⟩ := tyName_ne ty
     cases isWin with
     | false =>
-      obtain ⟨r, hr⟩ := var_toks ty.name shape
+      obtain ⟨r, hr⟩ := ppX_var_head ty.name shape
       have e1 : fnTyT (.num ty shape false mem) ++ ts =
-          tt (ppT 0 (.var ty.name shape)) ++ (ppMemT mem ++ ts) := by
+          (ppX 0 (.var ty.name shape)) ++ (ppMemT mem ++ ts) := by
         cases shape <;> simp [fnTyT]
       rw [e1, hr, List.cons_append, parseFnTy_id, ← List.cons_append, ← hr, hl]
       simp only [norm_var, n1, n2, n3, n4, Bool.false_and, ofName_name,
@@ -122,14 +118,14 @@ theorem parseFnTy_rt (ty : FnTy) (h : wfFnTy ty = true) (ts : List STok) (hs : A
       | cons i is =>
         have e1 : fnTyT (.num ty (i :: is) true mem) ++ ts =
             .t .lb :: .t (.id ty.name) :: .t .rb ::
-              ((tt (ppT 0 (.var ty.name (i :: is)))).tail ++ (ppMemT mem ++ ts)) := by
-          simp [fnTyT, ppT, tt_append]
+              (((ppX 0 (.var ty.name (i :: is)))).tail ++ (ppMemT mem ++ ts)) := by
+          simp [fnTyT, ppX]
         have e3 : STok.t (.id ty.name) ::
-              ((tt (ppT 0 (.var ty.name (i :: is)))).tail ++ (ppMemT mem ++ ts)) =
-            tt (ppT 0 (.var ty.name (i :: is))) ++ (ppMemT mem ++ ts) := by
-          simp [ppT]
+              (((ppX 0 (.var ty.name (i :: is)))).tail ++ (ppMemT mem ++ ts)) =
+            (ppX 0 (.var ty.name (i :: is))) ++ (ppMemT mem ++ ts) := by
+          simp [ppX]
         rw [e1, parseFnTy]
-        simp only [ofName_name, e3, hl, norm_var, normL, parseMem_stop mem ts hs, normFnTy]
+        simp only [ofName_name, e3, hl, norm_var, normXL, parseMem_stop mem ts hs, normFnTy]
 
 /-- the recorded defect, in general: an argument type `bool @MEM` / `stride @MEM` is rejected -/
 theorem parseFnTy_ctrl_mem (k : CtrlK) (m : String) (ts : List STok) :
@@ -196,14 +192,86 @@ theorem parseDefHead_rt (name : String) (args : List PFnArg) (h : wfFnArgs args 
     · simp only [e', h1, h2, normFnArgs]
     · intro hh; simp at hh
 
+/-- what may follow the assertion lines: nothing, or a line that is not an `assert` at that
+    column -/
+def NoAssertHead (col : Nat) : List Line → Prop
+  | [] => True
+  | l :: _ => l.ind = col → ∀ r, l.toks ≠ .kwAssert :: r
+
+theorem parseAsserts_rt (col : Nat) : ∀ (es : List XExpr), wfXL es = true →
+    ∀ rest, NoAssertHead col rest →
+    parseAsserts col (ppAsserts col es ++ rest) = some (normXL es, rest)
+  | [], _, rest, hr => by
+    cases rest with
+    | nil => simp [ppAsserts, parseAsserts, normXL]
+    | cons l ls =>
+      simp only [ppAsserts, List.nil_append, parseAsserts, normXL]
+      by_cases hc : l.ind = col
+      · simp only [hc, beq_self_eq_true, if_true]
+        split
+        · next r heq => exact absurd heq (hr hc r)
+        · rfl
+      · simp [hc]
+  | e :: es, h, rest, hr => by
+    simp only [wfXL, Bool.and_eq_true] at h
+    have ih := parseAsserts_rt col es h.2 rest hr
+    simp only [ppAsserts, List.cons_append, parseAsserts, beq_self_eq_true, if_true,
+      parseFull_rt e h.1, ih, normXL]
+
+theorem noAssert_block (w col : Nat) (body : List PStmt) :
+    NoAssertHead col (ppBlock w col body) := by
+  cases body with
+  | nil => trivial
+  | cons s ss =>
+    obtain ⟨a, r, hh, _, hna, _⟩ := simpleT_head s
+    simp only [ppBlock, ppStmt_eq, List.cons_append, NoAssertHead]
+    intro _ r' heq
+    rw [hh] at heq
+    simp only [List.cons.injEq] at heq
+    exact hna heq.1
+
+theorem parseProc_cons (l b : Line) (tl : List Line) :
+    parseProc (l :: b :: tl) =
+      match parseDefHead l.toks with
+      | none => none
+      | some (name, args) =>
+        if l.ind < b.ind then
+          match parseAsserts b.ind (b :: tl) with
+          | none => none
+          | some (preds, rest') =>
+            match parseBlock (blockFuel rest') b.ind rest' with
+            | some (body, []) => some ⟨name, args, preds, body⟩
+            | _ => none
+        else none := rfl
+
 theorem parseProc_rt (w : Nat) (hw : 0 < w) (ind : Nat) (p : PProc) (h : wfProc p = true) :
     parseProc (ppProc w ind p) = some (normProc p) := by
-  simp only [wfProc, Bool.and_eq_true] at h
-  have hne := isEmpty_false_ne h.1.2
+  simp only [wfProc, Bool.and_eq_true, Bool.or_eq_true] at h
+  obtain ⟨⟨⟨hargs, hpreds⟩, hbody⟩, hne⟩ := h
+  have hA := parseAsserts_rt (ind + w) p.preds hpreds (ppBlock w (ind + w) p.body)
+    (noAssert_block w (ind + w) p.body)
   have hb := needB_le w p.body (ind + w)
-  have hbody := body_rt w hw p.body hne (blockRT_all w hw p.body h.2) ind
-    (blockFuel (ppBlock w (ind + w) p.body)) [] (by simp only [blockFuel]; omega) trivial
-  rw [List.append_nil] at hbody
-  simp only [ppProc, parseProc, parseDefHead_rt p.name p.args h.1.1, hbody, normProc]
+  have hB := blockRT_all w hw p.body hbody (ind + w) (blockFuel (ppBlock w (ind + w) p.body)) []
+    (by simp only [blockFuel]; omega) trivial
+  rw [List.append_nil] at hB
+  -- the block after the header starts with a line at column `ind + w`
+  have hR : ∃ b tl, ppAsserts (ind + w) p.preds ++ ppBlock w (ind + w) p.body = b :: tl ∧
+      b.ind = ind + w := by
+    cases hp : p.preds with
+    | cons e es =>
+      exact ⟨⟨ind + w, .kwAssert :: ppX 0 e⟩, ppAsserts (ind + w) es ++ ppBlock w (ind + w) p.body,
+        by simp only [ppAsserts, List.cons_append], rfl⟩
+    | nil =>
+      cases hbd : p.body with
+      | nil => simp [hp, hbd] at hne
+      | cons s ss =>
+        exact ⟨⟨ind + w, simpleT s⟩, tailLines w (ind + w) s ++ ppBlock w (ind + w) ss,
+          by simp only [ppAsserts, List.nil_append, ppBlock, ppStmt_eq, List.cons_append], rfl⟩
+  obtain ⟨b, tl, hR, hbi⟩ := hR
+  rw [hR] at hA
+  simp only [ppProc, hR]
+  rw [parseProc_cons]
+  simp only [parseDefHead_rt p.name p.args hargs, hbi, show ind < ind + w by omega, if_true, hA,
+    hB, normProc]
 
 end Exo.PrintStmt
